@@ -121,7 +121,7 @@ fn scenarios(tier: Tier) -> Vec<(Program, usize)> {
 fn prog_cfg(tier: Tier) -> ProgCfg {
     ProgCfg {
         mix: OpMix { write: 10, abandon: 3, remove: 1, remove_hash: 1, remove_fully: 1, read: 1, ..OpMix::NONE },
-        wmix: WriteMix { bad_decls: true, meta: false, by_hash: true },
+        wmix: WriteMix { bad_decls: true, meta: false, by_hash: true, rich_matching: false, interfere: false },
         sizes: SizeMix::Boundary,
         keys: (1, 3),
         blobs: (1, 3),
@@ -133,7 +133,7 @@ fn victim_strategy() -> impl Strategy<Value = (Program, usize)> {
     (
         gen::key_pool(2, 2),
         gen::blob(SizeMix::Boundary),
-        gen::write_spec(WriteMix { bad_decls: true, meta: false, by_hash: true }, 1, 1),
+        gen::write_spec(WriteMix { bad_decls: true, meta: false, by_hash: true, rich_matching: false, interfere: false }, 1, 1),
         gen::fl(),
         0usize..3,
     )
